@@ -27,11 +27,39 @@ def main() -> int:
         print(f"no check for {pid}", file=sys.stderr)
         return 2
     ck = Check(pid, tier, seed)
+
+    class Stuck(BaseException):
+        pass
+
+    def on_alarm(signum, frame):  # noqa: ARG001
+        import traceback as _tb
+        stack = _tb.extract_stack(frame)
+        from harness.common import REPO as _REPO
+        inside = [f for f in stack if str(f.filename).startswith(str(_REPO))]
+        ex = Stuck(f"no result after {limit} s; the interpreter was executing "
+                   + (f"{inside[-1].filename.split('/src/')[-1]}:{inside[-1].lineno} ({inside[-1].name})" if inside else "harness code"))
+        ex.stack = stack            # type: ignore[attr-defined]
+        ex.inside = bool(inside)    # type: ignore[attr-defined]
+        if inside and not stuck:
+            stuck.append(ex)
+        signal.alarm(15)            # harness wrappers catch BaseException around library calls: keep raising until the run ends
+        raise ex
+
+    stuck: list[BaseException] = []
+
+    # a run that normally takes a minute (quick) or a quarter of an hour (thorough) and has not ended after `limit` seconds is stuck:
+    # if the interpreter is then executing library code, the library loops (or became unusably slow) on an input it used to handle
+    limit = int(__import__("os").environ.get("VERIF_LIMIT", 1500 if tier == "quick" else 7200))
+    signal.signal(signal.SIGALRM, on_alarm)
+    signal.alarm(limit)
     try:
         if a.replay:
             p = (VERIF / a.replay) if not a.replay.startswith("/") else a.replay
             return mod.replay(ck, json.loads(open(p).read()))
         rc = mod.run(ck)
+        signal.alarm(0)
+        if stuck and rc == 0:
+            raise stuck[0]
         if rc == 0:
             print(f"OK property={pid} tier={tier} seed={seed} obligations={sum(o['ok'] for o in ck.obligations)}/{len(ck.obligations)} "
                   f"cases={ck.evaluations} oracle={ck.oracle_evaluations} wall={__import__('time').time()-ck.t0:.1f}s")
@@ -39,7 +67,38 @@ def main() -> int:
     except HarnessError as ex:
         print(f"HARNESS-ERROR property={pid}: {ex}", file=sys.stderr)
         return 2
-    except Exception:  # noqa: BLE001
+    except Stuck as ex:
+        signal.alarm(0)
+        if getattr(ex, "inside", False):
+            ck.fail("library-does-not-terminate", str(ex), {"stack": traceback.format_list(ex.stack)[-10:]})  # type: ignore[attr-defined]
+            try:
+                return ck.finish()
+            except BaseException:  # noqa: BLE001
+                print(f"VIOLATION property={pid} replay=replays/{pid}_{tier}_{seed}.json")
+                return 1
+        print(f"HARNESS-ERROR property={pid}: {ex}", file=sys.stderr)
+        return 2
+    except BaseException as ex:  # noqa: BLE001
+        if isinstance(ex, (KeyboardInterrupt, SystemExit)):
+            raise
+        tb = traceback.extract_tb(ex.__traceback__)
+        from harness.common import REPO
+        inside = [f for f in tb if str(f.filename).startswith(str(REPO))]
+        if inside and not a.replay:
+            # The exception was raised INSIDE the library, on a path where the harness (which passes on the unchanged tree) expects
+            # it to succeed: the property is no longer shown to hold and the run that was to show it cannot complete.  Reported as a
+            # violation with the call that failed as the replay -- not as a harness error.
+            where = inside[-1]
+            traceback.print_exc()
+            ck.fail(f"library-raised:{type(ex).__name__}",
+                    f"{type(ex).__name__}: {str(ex)[:200]} raised in {where.filename.split('/src/')[-1]}:{where.lineno} ({where.name}) while the "
+                    f"check was setting up an input the unchanged library accepts",
+                    {"traceback": traceback.format_exception(ex)[-12:]})
+            try:
+                return ck.finish()
+            except BaseException:  # noqa: BLE001
+                print(f"VIOLATION property={pid} replay=replays/{pid}_{tier}_{seed}.json")
+                return 1
         traceback.print_exc()
         return 2
 
